@@ -24,6 +24,7 @@ CONSTANTS
   ValueClasses,      \* classes of property values
   PropNamesW, MaxPropObjsW,
   MaxCalls, MaxSessions,
+  MaxRefused,        \* how many refused write_segment calls a program may contain
   GenPrint
 
 VARIABLES prog, emitted, rootWritten, groupsWritten, open, nsessions, cls, logical
@@ -150,7 +151,18 @@ WriteSegment ==
                          props |-> ApplyProps(logical.props, objs)]
   /\ UNCHANGED <<open, nsessions, cls>>
 
-Next == OpenSession \/ WriteSegment \/ CloseSession
+\* A call the writer refuses - an unsupported property value, an array dtype without a TDMS type, the same path twice -
+\* raises and changes nothing: no segment is emitted and the bookkeeping of declared objects stays as it was.
+\* (The refused call carries the objects of some legal call plus the offending one: L is recorded for the replay.)
+RefusalKinds == {"bad_property_value", "unsupported_dtype", "duplicate_path"}
+NRefused == Cardinality({i \in DOMAIN prog : prog[i].call = "refused"})
+RefusedWrite ==
+  /\ open /\ NRefused < MaxRefused /\ NCalls < MaxCalls
+  /\ \E L \in ObjSeqs : \E k \in RefusalKinds :
+        prog' = Append(prog, [call |-> "refused", kind |-> k, paths |-> L])
+  /\ UNCHANGED <<emitted, rootWritten, groupsWritten, open, nsessions, cls, logical>>
+
+Next == OpenSession \/ WriteSegment \/ CloseSession \/ RefusedWrite
 Spec == Init /\ [][Next]_vars
 
 (* ----------------- meaning of the emitted segments: TdmsSegments ---------------- *)
